@@ -210,6 +210,15 @@ impl Ctx {
             Err(e) => Err(Verdict::Violation { sig: "no-quiescence".into(), detail: format!("the server never became quiescent: {}", e) }),
         }
     }
+    /// Runs until quiescence or until task `label_prefix` has been polled `polls` times.
+    pub async fn quiesce_until_polls(&self, label_prefix: &str, polls: u32) -> Result<(), Verdict> {
+        let lp = label_prefix.to_string();
+        let stop = move |s: &Shared| s.tasks.iter().filter(|t| t.label.starts_with(&lp)).map(|t| t.polls).sum::<u32>() >= polls;
+        match run_until(&self.sh, self.max_steps, &stop).await {
+            Ok(_) => Ok(()),
+            Err(e) => Err(Verdict::Violation { sig: "no-quiescence".into(), detail: format!("the server never became quiescent: {}", e) }),
+        }
+    }
     /// Runs `fut` as a client task to completion under the default schedule (choices frozen).
     pub async fn settle<T: Send + 'static>(&self, label: &str, fut: impl Future<Output = T> + Send + 'static) -> Result<T, Verdict> {
         let was = self.freeze(true);
